@@ -162,6 +162,7 @@ def main(tier, seed, replay=None, prop=PROP, with_patches=False):
             res.violation(dict(term=repr(term), patches=repr(pt), features=feats), why, observed=dict(err=ob['err'], restored=ob['restored']),
                           finding_matcher=known_matcher)
         terms.append(ct); keep.append((term, pt, ob))
+    direct_probes(res)
     if with_patches:
         histories(res, rnd, tier)
     bad, err = core.coq_eval_cases(prop, HEADER, terms, per_file=200)
@@ -172,6 +173,75 @@ def main(tier, seed, replay=None, prop=PROP, with_patches=False):
         term, pt, ob = keep[i]
         res.tie('correspondence:loads', dict(term=repr(term), patches=repr(pt), implementation=dict(err=ob['err'], restored=ob['restored'], heap_after=ob['heap_after']), coq=terms[i][:1500]))
     return res.finish()
+
+
+class FalsyState:
+    """opt-in class whose remote state is falsy but not None"""
+    STATE = {}
+    calls = []
+
+    def __getstate__(self, remote=False):
+        return type(self).STATE
+
+    def __setstate__(self, st):
+        FalsyState.calls.append(st)
+
+
+def direct_probes(res):
+    """shapes the term language cannot express: falsy states, overlapping loads on two threads"""
+    import pickle
+    from pyworkers import remote_pickle
+    for st in ({}, 0, (), ''):
+        FalsyState.STATE = st
+        del FalsyState.calls[:]
+        pickle.loads(pickle.dumps(FalsyState()))
+        want = list(FalsyState.calls)
+        del FalsyState.calls[:]
+        try:
+            o = remote_pickle.loads(remote_pickle.dumps(FalsyState()))
+            got = list(FalsyState.calls)
+            leftover = '__setstate__' in vars(o)
+        except BaseException as e:   # noqa
+            got, leftover = type(e).__name__, False
+        res.count('probe:falsy-state'); res.case(('falsy', repr(st)), nontrivial=True)
+        if got != want or leftover:
+            res.violation(dict(probe='falsy state', state=repr(st), features=[]),
+                          f'opt-in object with remote state {st!r}: __setstate__ calls {got} (standard unpickling: {want}), load-time hook left on the instance: {leftover}',
+                          finding_matcher=known_matcher)
+    # two loads overlapping in time on two threads
+    gate, inside = threading.Event(), threading.Event()
+
+    class Slow(pg.OptBase):
+        def __setstate__(self, st):
+            if st.get('fslow'):
+                inside.set(); gate.wait(5)
+            super().__setstate__(st)
+    Slow.__qualname__ = 'Slow'; Slow.__module__ = pg.__name__; pg.Slow = Slow
+    a = pg.OptBase(); a._id = 0; b = pg.OptBase(); b._id = 1; c = Slow(); c._id = 2; c.fslow = 1
+    a.f1 = b; b.f1 = c
+    data_slow = remote_pickle.dumps(a)
+    c.fslow = 0
+    data_fast = remote_pickle.dumps(a)
+    out = {}
+
+    def t1():
+        try:
+            out['slow'] = remote_pickle.loads(data_slow, extra_kwargs={'f7': 1}).f7
+        except BaseException as e:   # noqa
+            out['slow'] = type(e).__name__
+
+    def t2():
+        inside.wait(5)
+        try:
+            out['fast'] = remote_pickle.loads(data_fast, extra_kwargs={'f7': 2}).f7
+        except BaseException as e:   # noqa
+            out['fast'] = type(e).__name__
+        gate.set()
+    th = [threading.Thread(target=t1), threading.Thread(target=t2)]
+    [x.start() for x in th]; [x.join(20) for x in th]
+    res.count('probe:overlapping-threads'); res.case(('overlap',), nontrivial=True)
+    if out != {'slow': 1, 'fast': 2}:
+        res.violation(dict(probe='two loads overlapping on two threads', features=[]), f'overlapping loads interfere: {out}, expected slow=1 fast=2', finding_matcher=known_matcher)
 
 
 def histories(res, rnd, tier):
